@@ -1476,3 +1476,137 @@ def cov1(P, R, L, rule="COV-1"):
     R.check(rule, "logs::BlockRecord::new|uncovered=%s" % ",".join(uncovered), not uncovered, where(bn),
             "the fragment checksum covers the payload and the header bytes that steer reassembly (type, length)",
             "checksum input derives from parameters %s; not covered: %s" % (sorted(names[i] for i in covered), uncovered))
+
+
+# ------------------------------------------------------------------------------------------- ROLE-3 level roles / PAIR-6 group membership / cache eviction
+REMOVE_FILE_EDIT = "versioning::version_manifest::VersionChangeManifest::remove_file"
+LEVEL_FN = "compaction::manifest::CompactionManifest::level"
+
+
+def level_expr(body, op, depth=0):
+    """classify an operand as `level + k`: returns ('level', k) | ('level+var', None) | None"""
+    if op["k"] == "const":
+        return None
+    os_ = origins(body, op)
+    base = any((o.kind == "call" and o.name == LEVEL_FN) or ("level" in o.path) for o in os_)
+    if base and all(o.kind != "binop" for o in os_):
+        return ("level", 0)
+    for o in os_:
+        if o.kind == "binop" and o.name in ("Add", "AddWithOverflow", "AddUnchecked") and o.extra:
+            st = o.extra[1]
+            a, b_ = st["rv"]["ops"]
+            for x, y in ((a, b_), (b_, a)):
+                lx = level_expr(body, x, depth + 1) if depth < 3 else None
+                if lx and lx[0] == "level" and lx[1] == 0:
+                    if y["k"] == "const" and y.get("val") is not None:
+                        return ("level", int(y["val"]))
+                    return ("level+var", None)
+    return None
+
+
+def role3_levels(P, R, L, rule="ROLE-3"):
+    # compaction outputs go to level+1
+    fv = P.body("compaction::state::CompactionState::finalize_version_manifest")
+    if fv is None:
+        R.missing_anchor(rule, "CompactionState::finalize_version_manifest")
+    else:
+        R.analysed(fv)
+        af = normal_sites(fv, ADD_FILE)
+        ok = bool(af) and all(level_expr(fv, a.args[1]) == ("level", 1) for a in af)
+        dl = sites_reaching(P, fv, "compaction::manifest::CompactionManifest::add_input_deletions")
+        R.check(rule, fv.path + "|outputs-at-parent-level", ok and bool(dl), where(fv),
+                "compaction outputs are added at level()+1 and the inputs are recorded as deletions",
+                "add_file level exprs %s; add_input_deletions sites %d" % ([level_expr(fv, a.args[1]) for a in af], len(dl)))
+    ad = P.body("compaction::manifest::CompactionManifest::add_input_deletions")
+    if ad is None:
+        R.missing_anchor(rule, "CompactionManifest::add_input_deletions")
+    else:
+        R.analysed(ad)
+        rm = normal_sites(ad, REMOVE_FILE_EDIT)
+        ex = [level_expr(ad, r.args[1]) for r in rm]
+        ok = bool(rm) and all(e == ("level+var", None) for e in ex) and all(in_cycle(ad, r.bb) for r in rm) and \
+            bool(field_reads(ad, "input_files"))
+        R.check(rule, ad.path + "|both-input-levels-deleted", ok, where(ad),
+                "every file of both input levels (level + index over input_files) is recorded as deleted", "remove_file level exprs %s" % ex)
+    tm = P.body("compaction::manifest::CompactionManifest::set_change_manifest_for_trivial_move")
+    if tm is None:
+        R.missing_anchor(rule, "CompactionManifest::set_change_manifest_for_trivial_move")
+    else:
+        R.analysed(tm)
+        rm = normal_sites(tm, REMOVE_FILE_EDIT)
+        af = normal_sites(tm, ADD_FILE)
+        ok = len(rm) == 1 and len(af) == 1 and level_expr(tm, rm[0].args[1]) == ("level", 0) and level_expr(tm, af[0].args[1]) == ("level", 1)
+        same = False
+        if ok:
+            n1 = {(o.name, o.site.bb if o.site else None) for o in origins(tm, rm[0].args[2]) if o.kind == "call"}
+            n2 = {(o.name, o.site.bb if o.site else None) for o in origins(tm, af[0].args[2]) if o.kind == "call"}
+            same = any(n[0].endswith("file_number") for n in n1) and any(n[0].endswith("file_number") for n in n2)
+        R.check(rule, tm.path + "|move-level-to-parent", ok and same, where(tm),
+                "a trivial move deletes the file at `level` and adds the same file number at `level + 1`",
+                "remove %s add %s" % ([level_expr(tm, r.args[1]) for r in rm], [level_expr(tm, a.args[1]) for a in af]))
+    # flush output level: add_file level is 0 or the level picked by pick_level_for_memtable_output
+    cv = P.body(CONVERT)
+    if cv is not None:
+        R.analysed(cv)
+        for a in normal_sites(cv, ADD_FILE):
+            os_ = origins(cv, a.args[1])
+            names = {o.name for o in os_ if o.kind in ("call", "const")}
+            ok = names <= {"0", "versioning::version::Version::pick_level_for_memtable_output"} and bool(names)
+            R.check(rule, CONVERT + "|flush-output-level", ok, a.where(),
+                    "a flushed memtable goes to level 0 or to the level chosen by pick_level_for_memtable_output", "level origins %s" % sorted(names))
+
+
+def pair6_group_membership(P, R, L, rule="PAIR-6"):
+    b = P.body("db::DB::build_group_commit_batch")
+    if b is None:
+        return R.missing_anchor(rule, "db::DB::build_group_commit_batch")
+    R.analysed(b)
+    apps = [c for c in normal_sites(b, "batch::Batch::append_batch")]
+    loop_apps = [c for c in apps if in_cycle(b, c.bb)]
+    # last_writer: the local whose clone is returned as the second tuple element
+    ret_locals = set()
+    for bb in range(b.n):
+        for st in b.blocks[bb]["stmts"]:
+            if st["k"] == "assign" and st["rv"]["k"] == "aggregate" and st["rv"]["ak"] == "tuple" and len(st["rv"]["ops"]) == 2 and not b.is_cleanup(bb):
+                ret_locals |= roots(b, st["rv"]["ops"][1])
+    cand = [l for l in ret_locals if b.local_name(l) is not None and len(b.defs().get(l, [])) >= 2]
+    if not cand or not loop_apps:
+        return R.check(rule, b.path + "|anchors", False, where(b), "the group builder tracks the last writer of the group and appends batches in a loop",
+                       "last-writer locals %s, loop append sites %d" % (cand, len(loop_apps)))
+    lw = cand[0]
+    nobatch_edges = []
+    for c in b.calls():
+        if c.name == "std::option::Option::is_none" and in_cycle(b, c.bb) and not b.is_cleanup(c.bb):
+            if any(o.kind == "call" and o.name == "writers::Writer::maybe_batch" for o in origins(b, c.args[0])):
+                for t in _bt(b, c.dest["l"]):
+                    nobatch_edges += t.ok_edges()
+    ok = True
+    det = []
+    for d in b.defs().get(lw, []):
+        if b.is_cleanup(d[1]) or not in_cycle(b, d[1]):
+            continue
+        head = _loop_head(b, d[1])
+        with_append = b.must_pass(d[1], through_nodes=[a.bb for a in loop_apps], start=head)
+        no_batch = bool(nobatch_edges) and b.must_pass(d[1], through_edges=nobatch_edges, start=head)
+        if not (with_append or no_batch):
+            ok = False
+            det.append("line %s: a writer becomes the group's last writer without its batch having been appended" % (d[3].get("line") if d[0] == "stmt" else d[3].get("line")))
+    # the size check comes before the append
+    R.check(rule, b.path + "|last-writer-only-if-included", ok, where(b),
+            "inside the grouping loop a writer becomes `last_writer` only after its batch was appended (or it carries no batch)", "; ".join(det))
+    # the leader's own batch is appended before the loop
+    first_apps = [c for c in apps if not in_cycle(b, c.bb)]
+    R.check(rule, b.path + "|leader-batch-included", bool(first_apps), where(b), "the leader's own batch is appended before the grouping loop", "sites %d" % len(first_apps))
+
+
+def cache_eviction(P, R, L, rule="GRD-5"):
+    b = P.body(REMOVE_OBSOLETE)
+    if b is None:
+        return R.missing_anchor(rule, REMOVE_OBSOLETE)
+    ev = normal_sites(b, "table_cache::TableCache::remove")
+    pushes = [c for c in normal_sites(b, "std::vec::Vec::push") if "PathBuf" in " ".join(c.t.get("substs") or [])]
+    # the push that is dominated by a TableFile variant test: approximate by "some push is dominated by the eviction"
+    ok = bool(ev) and any(b.must_pass(p.bb, through_nodes=[e.bb for e in ev]) for p in pushes)
+    R.check(rule, REMOVE_OBSOLETE + "|evict-before-delete", ok, where(b),
+            "a table file queued for deletion is evicted from the table cache first (a reused file number must not serve a stale table)",
+            "evictions %d" % len(ev))
